@@ -117,6 +117,14 @@ CLAIMS["C13"] = dict(
     technique="stream-operation sequence extraction per structured path, writer<->reader mirroring, ladder agreement, exception escape",
     design="DESIGN.md section 4, C13")
 
+CLAIMS["C05"] = dict(
+    text="Sibling cross-check of the step-wise taproot commitment against the batch twin kept from Bitcoin Core and against BIP341 "
+         "constants: tagged hashers, leaf stream, node byte-slice (offset as a linear form in the node index), ordering predicate, path "
+         "length, internal/output key slices, final CheckTapTweak arguments; the control-size predicate; def-use of the exported leaf "
+         "hash into the signing data; CheckTapTweak hands parity to libsecp. SHA-256 / secp256k1 are trusted.",
+    technique="normalised-fact extraction from both implementations (byte-slice normaliser, stream operand order), sibling agreement",
+    design="DESIGN.md section 4, C05")
+
 NOT_YET = "check not built yet in this round (see DESIGN.md section 7 build order)"
 
 NA = {
